@@ -58,7 +58,7 @@ def check_instance(inst, F, ctx, extra, collect=None):
     def mark(path, ok):
         covered[path] = bool(ok) and covered.get(path, True)
     # try_from / TryFrom
-    it = I.assoc_fn('try_from')
+    it = I.require_fn(ctx, 'try_from')
     if it is not None:
         mark(it['path'], check_try_from(inst, V, ctx, I.body(it['path']), 'try_from', 'Some') is not None)
     if 'TryFrom' in inst.feats:
@@ -66,7 +66,7 @@ def check_instance(inst, F, ctx, extra, collect=None):
             mark(p, check_try_from(inst, V, ctx, I.body(p), 'TryFrom', 'Ok') is not None)
     # as_str and the functions the delegating traits call
     checked = {}
-    it = I.assoc_fn('as_str')
+    it = I.require_fn(ctx, 'as_str')
     if it is not None:
         checked[it['path']] = check_as_str(inst, V, ctx, I.body(it['path']), 'as_str')
     for f, tr in (('Debug', 'core::fmt::Debug'), ('Display', 'core::fmt::Display')):
@@ -79,7 +79,7 @@ def check_instance(inst, F, ctx, extra, collect=None):
     for p, ok in checked.items():
         mark(p, ok)
     # from_str / FromStr
-    it = I.assoc_fn('from_str')
+    it = I.require_fn(ctx, 'from_str')
     if it is not None:
         mark(it['path'], check_from_str(inst, V, ctx, I.body(it['path']), 'from_str', 'Some'))
     if 'FromStr' in inst.feats:
@@ -88,7 +88,7 @@ def check_instance(inst, F, ctx, extra, collect=None):
     # next / next_back (requested, or helpers reached from the cursor iterator)
     steps = {}
     for feature, direction in (('next', 'fwd'), ('next_back', 'bwd')):
-        it = I.assoc_fn(feature)
+        it = I.require_fn(ctx, feature)
         if it is not None:
             steps[(it['path'], direction)] = bool(check_step(inst, V, ctx, I.body(it['path']), direction, feature, feature))
     # iter / range
